@@ -283,6 +283,37 @@ CLAIMS = {
     ),
 }
 
+# necessary-condition rules added during the validation rounds (DESIGN.md 5.A, second table)
+ADDED = {
+    "C01": "Also: reference summaries of the stable sort and the rule slices (SORTSL) and the frozen dependence order "
+           "of the statements of the table construction (DEPORD-T); symbol lookup (REJ-2) and bitset primitives (BITSET).",
+    "C02": "Also: no user functor is copied anywhere on the parse path (FCOPY), the fixed-capacity vector primitives "
+           "match their reference summaries (CVEC), dependent statements of the driver keep their order (DEPORD), the "
+           "helper functors' type-level witness (HLP).",
+    "C04": "Also: reference summaries of the pattern front end and of every term getter the lexer builder reads (REGEXFE, "
+           "TERMAPI), dependence order of the statements of matcher and automaton builder (DEPORD), width of every "
+           "carrier of a lexeme length (WIDTH), the caller's buffer is never taken by value or copied (BUFREF).",
+    "C05": "Also: precedences are signed ints end to end (WIDTH over the copy-flow class of term::precedence), every "
+           "term kind defaults to precedence 0 / no associativity (DEFARG), getters' reference summaries (TERMAPI).",
+    "C06": "Also: CVEC reference summaries, DEPORD over matcher and driver, WIDTH (lexeme length, stack depth), BUFREF, "
+           "the reduce ordering rules ONCE/LOCK.",
+    "C07": "Also: no library function takes or copies the caller's buffer by value (BUFREF).",
+    "C08": "Also: the fixed-capacity stack accounting for the recovery path (CAP-S, with its recorded finding) and the "
+           "dependence order of the driver's statements (DEPORD); table rules as necessary conditions.",
+    "C09": "Also: the names printed come from the term getters (TERMAPI), lengths and line/column counters do not wrap "
+           "(WIDTH), white-space and matcher rules (WS, MATCH) and the table rules as necessary conditions.",
+    "C10": "Also: line/column and lexeme-length carriers are wide enough (WIDTH) and position updates keep their order "
+           "relative to the iterator advances (DEPORD).",
+    "C13": "Also CTX-T: on the template arguments of every instantiation, init_nth_reductor<Nr, RC, F> stores "
+           "&reduce_value<Nr, RC, F>, which calls reduce_value_impl<RC, F> (including a contextual functor that could "
+           "also be called without the context).",
+    "C15": "Also IMM-10: rules, terms and nterms own their members in every instantiation (no reference members; witness "
+           "with lvalue functors), and the library's own functors move only from rvalues (HLP-T).",
+    "C16": "Also: the name table of the trace is indexed through char_to_idx (CHARIDX).",
+    "C17": "Also: reference summaries of the pattern lexer / character decoding and of the term getters (REGEXFE, TERMAPI).",
+    "C18": "Also: WIDTH over the returned length, TERMAPI / DEFARG for custom_term, white-space and capacity rules.",
+}
+
 NOT_APPLICABLE = {
     "C03": "Language equality between a regex pattern and the automaton built by in-place state merging is a "
            "semantic property of an algorithm over unbounded patterns; no dataflow/typestate/shape rule is a "
@@ -309,7 +340,8 @@ def main():
             "evidence_file": "/verif/evidence/%s.json" % pid,
             "replay_cmd_template": "cat {path}",
             "engine": "ctpgsa",
-            "level_claimed": {"category": c["category"], "text": c["text"], "design_ref": c["design_ref"]},
+            "level_claimed": {"category": c["category"], "text": c["text"] + (" " + ADDED[pid] if pid in ADDED else ""),
+                              "design_ref": c["design_ref"]},
             "level_note": c["note"],
             "technique": c["technique"],
         })
